@@ -1078,7 +1078,7 @@ def gen_c18_program(seed, start, count):
             cases.append(dict(mod=mod, item=f'{head} {decl}', traits=traits.split(', '), shape=('named' if named else 'tuple') + '-unsized', raw=fldn.startswith('r#')))
             continue
         # the field is itself a reference: `Target` is the reference type, the result points at the field, not at the referent
-        if rng.random() < 0.15:
+        if rng.random() < 0.2:
             mutable = rng.random() < 0.5
             both = mutable and rng.random() < 0.7
             traits = 'Deref, DerefMut' if both else 'Deref'
@@ -1088,7 +1088,8 @@ def gen_c18_program(seed, start, count):
             lt, g = rng.choice([("'a", "<'a>"), ("'static", ''), ("'a", "<'a, T: 'a>")])
             ref = f"&{lt} mut " if mutable else f"&{lt} "
             pointee = 'T' if 'T' in g else 'u32'
-            fty = ref + pointee
+            # the referent also in parentheses that are not needed: nothing but the parentheses may go
+            fty = ref + (f'({pointee})' if rng.random() < 0.4 else pointee)
             decl = (f'pub struct X{g} {{ pub {fldn}: {fty} }}' if named else f'pub struct X{g}(pub {fty});')
             val = 'Box::leak(Box::new(7u32))'
             ctor = f'X {{ {fldn}: {val} }}' if named else f'X({val})'
@@ -1174,7 +1175,7 @@ def gen_macro_value_program(seed, start, count):
     cases = []
     for idx in range(start, start + count):
         mod = f'c{idx}'
-        kind = rng.choice(['default_expr', 'by_expr', 'impl_body', 'type_frag', 'ops_struct'])
+        kind = rng.choice(['default_expr', 'by_expr', 'impl_body', 'type_frag', 'ops_struct', 'key_expr', 'impl_const_arg'])
         a, b = rng.randrange(1, 5), rng.randrange(1, 5)
         e_arg = rng.choice([f'{a} + {b}', f'{a} + {b}', f'{a + b}', f'({a} + {b})', f'{a} << 1 | {b}'])
         e_val = eval(e_arg)
@@ -1213,6 +1214,33 @@ def gen_macro_value_program(seed, start, count):
             check = (f'  n += 1; if (X(1) + 3).0 != 1 + 3 * ({e_arg}) + 100 {{ println!("{mod} FAIL the user\'s own impl changed its meaning: {{}}", (X(1) + 3).0); }}\n'
                      f'  n += 1; if (X(1) + 2).0 != 1 + 20 * ({e_arg}) + 100 {{ println!("{mod} FAIL n @ $q with $q = {pat}: {{}}", (X(1) + 2).0); }}\n'
                      f'  n += 1; let mut y = X(1); y += 3; if y != X(1) + 3 {{ println!("{mod} FAIL += differs from +"); }}\n')
+            traits = [t.strip() for t in tr.split(',')]
+        elif kind == 'key_expr':
+            tl = 'PartialEq, Eq, PartialOrd, Ord, Hash, Debug'
+            head = f'#[derive(Ex)] #[derive_ex({tl})]' if derive else f'#[derive_ex({tl})]'
+            m = e_val if e_val > 1 else 3
+            m_arg = e_arg if e_val > 1 else '1 + 2'
+            decl = (f'macro_rules! mk {{ ($d:tt, $m:expr, $f:expr) => {{ {head} pub struct X(#[ord(key = $d % $m)] pub i32, #[ord(key = $f.max($d))] pub i32); }} }}\n'
+                    f' mk!($, {m_arg}, -3);')
+            check = (f'  use ::core::cmp::Ordering::*;\n'
+                     f'  n += 1; if X(1, 0) != X(1 + {m}, 0) || X(0, 0) == X(1, 0) {{ println!("{mod} FAIL key = $ % $m with $m = {m_arg}"); }}\n'
+                     f'  n += 1; if X(0, 0).cmp(&X(1, 0)) != Less || X({m}, 0).cmp(&X(1, 0)) != Less {{ println!("{mod} FAIL cmp through key = $ % $m"); }}\n'
+                     f'  n += 1; if X(0, -10) != X(0, -5) || X(0, -10).cmp(&X(0, -2)) != Less || X(0, 4).partial_cmp(&X(0, 5)) != Some(Less) {{ println!("{mod} FAIL key = $f.max($) with $f = -3"); }}\n')
+            traits = [t.strip() for t in tl.split(',')]
+        elif kind == 'impl_const_arg':
+            tr = rng.choice(['Add', 'Add, AddAssign', 'AddAssign'])
+            decl = ('#[derive(Clone, Copy, Debug, PartialEq)] pub struct V<const N: usize>(pub i32);\n'
+                    f' macro_rules! mk {{ ($h:expr) => {{ #[derive_ex({tr})] impl ::core::ops::Add<&V<{{ $h * 2 }}>> for &V<{{ $h * 2 }}> {{ type Output = V<{{ $h * 2 }}>; '
+                    f'fn add(self, r: &V<{{ $h * 2 }}>) -> V<{{ $h * 2 }}> {{ V(self.0 * 10 + r.0) }} }} }} }}\n'
+                    f' mk!({e_arg});')
+            nn = f'{{ ({e_arg}) * 2 }}'
+            check = (f'  let (a, b) = (V::<{nn}>(1), V::<{nn}>(2));\n'
+                     f'  n += 1; if (&a + &b).0 != 12 {{ println!("{mod} FAIL the user\'s own impl"); }}\n')
+            if 'Add' in [t.strip() for t in tr.split(',')]:
+                check += f'  n += 1; if (a + b).0 != 12 || (&a + b).0 != 12 || (a + &b).0 != 12 {{ println!("{mod} FAIL the derived forms for V<{{{{ $h * 2 }}}}>"); }}\n'
+            if 'AddAssign' in tr:
+                first = 'b' if 'Add' in [t.strip() for t in tr.split(',')] else '&b'
+                check += f'  n += 1; let mut c = a; c += {first}; c += &b; if c.0 != 122 {{ println!("{mod} FAIL += : {{}}", c.0); }}\n'
             traits = [t.strip() for t in tr.split(',')]
         elif kind == 'ops_struct':
             tl = 'Add, AddAssign, Neg, Clone, Copy, Debug, PartialEq'
